@@ -1130,7 +1130,7 @@ func execC05M(ops []Op) []string {
 	select {
 	case out := <-done:
 		return out
-	case <-time.After(20 * time.Second):
+	case <-hangAfter(20 * time.Second):
 		atomic.AddInt32(&c05Hangs, 1)
 		return []string{"X timeout " + ops[0].String() + " => the interpreter did not come back within 20s"}
 	}
